@@ -5,12 +5,17 @@
 #![allow(unused_imports, dead_code, unused_variables, unused_mut, unused_assignments, unexpected_cfgs)]
 use vstd::prelude::*;
 use vstd::std_specs::cmp::PartialEqSpec;
-use vstd::std_specs::iter::IteratorSpec;
+use vstd::std_specs::iter::{IteratorSpec, IteratorSpecImpl};
 use std::borrow::Cow;
 use std::ops::Deref;
 use std::cmp::{max, min};
 use std::io::{Read, Seek};
 use std::collections::BTreeMap;
+use std::ops::{Index, RangeFrom, RangeFull};
+use std::slice::SliceIndex;
+use vstd::std_specs::core::IndexSpec;
+use vstd::string::to_string_from_display_ensures;
+use vstd::std_specs::btree::{maps_borrowed_key_to_value, contains_borrowed_key, borrowed_key_ordering_matches};
 
 verus! {
 
@@ -48,6 +53,19 @@ pub mod vba { pub struct VbaError; }
 //@@ item src/xlsx/mod.rs struct TableMetadata
 //@@ item src/xlsx/mod.rs struct InnerTableMetadata
 
+// what `from_err!(quick_xml::Error, XlsxError, Xml)` / `from_err!(quick_xml::events::attributes::AttrError, XlsxError, XmlAttribute)`
+// (macro of src/utils.rs) expand to
+impl From<quick_xml::Error> for XlsxError { fn from(e: quick_xml::Error) -> (r: XlsxError) { XlsxError::Xml(e) } }
+impl vstd::std_specs::convert::FromSpecImpl<quick_xml::Error> for XlsxError {
+    open spec fn obeys_from_spec() -> bool { true }
+    open spec fn from_spec(e: quick_xml::Error) -> Self { XlsxError::Xml(e) }
+}
+impl From<quick_xml::events::attributes::AttrError> for XlsxError { fn from(e: quick_xml::events::attributes::AttrError) -> (r: XlsxError) { XlsxError::XmlAttribute(e) } }
+impl vstd::std_specs::convert::FromSpecImpl<quick_xml::events::attributes::AttrError> for XlsxError {
+    open spec fn obeys_from_spec() -> bool { true }
+    open spec fn from_spec(e: quick_xml::events::attributes::AttrError) -> Self { XlsxError::XmlAttribute(e) }
+}
+
 // =====================================================================================================================
 // A-std: assumed specifications of std functions the verified text calls (one line of documented behaviour each)
 // =====================================================================================================================
@@ -69,14 +87,14 @@ pub uninterp spec fn iter_rem<'a, T>(it: &std::slice::Iter<'a, T>) -> Seq<&'a T>
 #[verifier::external_body]
 pub broadcast proof fn axiom_iter_rem<'a, T>(it: &std::slice::Iter<'a, T>)
     ensures #[trigger] iter_rem(it) == IteratorSpec::remaining(it) {}
-/// the predicate returns false on the first n elements
-pub closed spec fn rejects<'a, T, P: FnMut(&&'a T) -> bool>(rem: Seq<&'a T>, pred: P, n: int) -> bool {
-    forall|j: int| 0 <= j < n && j < rem.len() ==> call_ensures(pred, (&#[trigger] rem[j],), false)
+/// f holds of the first n elements (used with f = "the predicate returns false")
+pub closed spec fn rejects<'a, T>(rem: Seq<&'a T>, f: spec_fn(&'a T) -> bool, n: int) -> bool {
+    forall|j: int| 0 <= j < n && j < rem.len() ==> f(#[trigger] rem[j])
 }
 /// (proved) `rejects` read on the slice side: re-triggering on `s[i]`
-pub broadcast proof fn lemma_rejects<'a, T, P: FnMut(&&'a T) -> bool>(rem: Seq<&'a T>, pred: P, n: int, s: Seq<T>, i: int)
-    requires rejects(rem, pred, n), rem.len() == s.len(), forall|j: int| 0 <= j < s.len() ==> *(#[trigger] rem[j]) == s[j], 0 <= i < n, i < s.len(),
-    ensures #![trigger rejects(rem, pred, n), s[i]] call_ensures(pred, (&&s[i],), false)
+pub broadcast proof fn lemma_rejects<'a, T>(rem: Seq<&'a T>, f: spec_fn(&'a T) -> bool, n: int, s: Seq<T>, i: int)
+    requires rejects(rem, f, n), rem.len() == s.len(), forall|j: int| 0 <= j < s.len() ==> *(#[trigger] rem[j]) == s[j], 0 <= i < n, i < s.len(),
+    ensures #![trigger rejects(rem, f, n), s[i]] f(&s[i])
 {
     assert(*rem[i] == s[i]);
 }
@@ -85,13 +103,100 @@ pub assume_specification<'a, T, P: FnMut(&<std::slice::Iter<'a, T> as Iterator>:
     ensures
         match r {
             Some(x) => exists|i: int| 0 <= i < iter_rem(old(it)).len() && x == #[trigger] iter_rem(old(it))[i] && call_ensures(pred, (&x,), true)
-                && rejects(iter_rem(old(it)), pred, i),
-            None => rejects(iter_rem(old(it)), pred, iter_rem(old(it)).len() as int),
+                && rejects(iter_rem(old(it)), |y: &'a T| call_ensures(pred, (&y,), false), i),
+            None => rejects(iter_rem(old(it)), |y: &'a T| call_ensures(pred, (&y,), false), iter_rem(old(it)).len() as int),
         };
 
 // TRUSTED: A-std -- `impl<T: Clone> ToOwned for T`: "to_owned" is `clone`
 pub assume_specification<T: Clone>[ <T as std::borrow::ToOwned>::to_owned ](x: &T) -> (r: T)
     ensures call_ensures(<T as Clone>::clone, (x,), r);
+
+// TRUSTED: A-std -- a `str` is determined by its character sequence (Verus compares string-literal patterns as `str` values)
+pub broadcast axiom fn axiom_str_ext(a: &str, b: &str)
+    ensures #![trigger a@, b@] (a@ == b@) ==> a == b;
+// TRUSTED: A-std -- `to_string()` of a String / a Cow<str> (through Display) is its content
+pub broadcast axiom fn axiom_string_to_string(t: &String, s: String)
+    ensures #[trigger] to_string_from_display_ensures::<String>(t, s) <==> s@ == t@;
+pub broadcast axiom fn axiom_cow_to_string<'a>(t: &Cow<'a, str>, s: String)
+    ensures #[trigger] to_string_from_display_ensures::<Cow<'a, str>>(t, s) <==> s@ == cow_ref(t)@;
+/// p is a prefix of s
+pub open spec fn is_prefix(p: Seq<char>, s: Seq<char>) -> bool { p.len() <= s.len() && s.subrange(0, p.len() as int) == p }
+/// the first n characters of s are ASCII (so byte offset n is the character boundary after n characters)
+pub open spec fn ascii_prefix(s: Seq<char>, n: int) -> bool { 0 <= n <= s.len() && forall|i: int| 0 <= i < n ==> (#[trigger] s[i] as u32) < 128 }
+// TRUSTED: A-std -- `str::starts_with(&str)`: "Returns true if the given pattern matches a prefix of this string slice" (`pat_chars`: the
+// characters of a `&str` pattern)
+pub uninterp spec fn pat_chars<P>(p: P) -> Seq<char>;
+pub broadcast axiom fn axiom_pat_chars_str(p: &str)
+    ensures #[trigger] pat_chars::<&str>(p) == p@;
+#[verifier::allow(undeclared_external_trait)]
+pub assume_specification<P: std::str::pattern::Pattern>[ str::starts_with ](s: &str, p: P) -> (r: bool)
+    ensures r == is_prefix(pat_chars(p), s@);
+// TRUSTED: A-std -- string slicing `&s[..]` (the whole string) and `&s[n..]` where the first n characters are ASCII (no panic: byte offset
+// n is a character boundary inside the string; yields the characters after the first n)
+pub uninterp spec fn str_index_post<I: SliceIndex<str>>(s: Seq<char>, i: I, x: &<I as SliceIndex<str>>::Output) -> bool;
+pub assume_specification<I: SliceIndex<str>>[ <str as Index<I>>::index ](s: &str, i: I) -> (x: &<I as SliceIndex<str>>::Output)
+    ensures str_index_post(s@, i, x);
+pub assume_specification<I: SliceIndex<str>>[ <String as Index<I>>::index ](s: &String, i: I) -> (x: &<I as SliceIndex<str>>::Output)
+    ensures str_index_post(s@, i, x);
+pub broadcast axiom fn axiom_str_index_full(s: Seq<char>, x: &str)
+    ensures #[trigger] str_index_post::<RangeFull>(s, RangeFull, x) ==> x@ == s;
+pub broadcast axiom fn axiom_str_index_from(s: Seq<char>, r: RangeFrom<usize>, x: &str)
+    ensures #[trigger] str_index_post::<RangeFrom<usize>>(s, r, x) && ascii_prefix(s, r.start as int) ==> x@ == s.skip(r.start as int);
+pub broadcast axiom fn axiom_string_index_req_full(s: &String)
+    ensures #[trigger] <String as IndexSpec<RangeFull>>::index_req(s, &RangeFull);
+pub broadcast axiom fn axiom_str_index_req_from(s: &str, r: RangeFrom<usize>)
+    ensures ascii_prefix(s@, r.start as int) ==> #[trigger] <str as IndexSpec<RangeFrom<usize>>>::index_req(s, &r);
+// TRUSTED: A-std -- `<[T]>::contains`: "Returns true if the slice contains an element with the given value" (`peq`: PartialEq of T;
+// for &str: same characters)
+pub uninterp spec fn peq<T>(a: T, b: T) -> bool;
+pub broadcast axiom fn axiom_peq_str(a: &str, b: &str)
+    ensures #[trigger] peq::<&str>(a, b) == (a@ == b@);
+pub assume_specification<T: PartialEq>[ <[T]>::contains ](s: &[T], x: &T) -> (r: bool)
+    ensures r == exists|i: int| 0 <= i < s@.len() && peq(#[trigger] s@[i], *x);
+// TRUSTED: A-std -- `Vec<u8>` keys looked up by `&[u8]` (std: `Borrow<[u8]> for Vec<u8>`; Ord of Vec<u8> and [u8] is the same lexicographic
+// order) -- vstd leaves both predicates uninterpreted for these types --; a map holds at most one value per key, which it does contain;
+// the lookup depends on the bytes of the key only
+#[verifier::external_body]
+pub proof fn axiom_bytes_keyed_map<V>(m: Map<Vec<u8>, V>, k: &[u8])
+    ensures
+        vstd::laws_cmp::obeys_cmp::<Vec<u8>>(),
+        borrowed_key_ordering_matches::<Vec<u8>, [u8]>(),
+        forall|v1: V, v2: V| maps_borrowed_key_to_value(m, k, v1) && maps_borrowed_key_to_value(m, k, v2) ==> v1 == v2,
+        forall|v: V| maps_borrowed_key_to_value(m, k, v) ==> contains_borrowed_key(m, k),
+        forall|k2: &[u8], v: V| k2@ == k@ ==> (maps_borrowed_key_to_value(m, k2, v) <==> maps_borrowed_key_to_value(m, k, v)),
+{}
+/// the relationship target stored under the id with these bytes, if any
+pub open spec fn rel_at(m: Map<Vec<u8>, String>, id: Seq<u8>) -> Option<Seq<char>> {
+    if exists|k: &[u8], v: String| k@ == id && maps_borrowed_key_to_value(m, k, v) {
+        let (k, v) = choose|k: &[u8], v: String| k@ == id && maps_borrowed_key_to_value(m, k, v); Some(v@)
+    } else { None }
+}
+// TRUSTED: stand-ins for two expressions outside Verus, stated literally (each replaces the expression through a logged rewrite that
+// keeps its arguments verbatim): `format!(FMT, a)` with one `{}` placeholder; `s.split(c).nth(n)`
+#[verifier::external_body]
+fn verif_format_1(fmt: &str, a: &str) -> (r: String)
+    ensures fmt@ == "xl/{}"@ ==> r@ == "xl/"@ + a@,
+{ unimplemented!() }
+/// index of the first c in s at or after i; s.len() if none
+pub open spec fn find_ch(s: Seq<char>, c: char, i: int) -> int
+    decreases s.len() - i
+{
+    if i < 0 || i >= s.len() { s.len() as int } else if s[i] == c { i } else { find_ch(s, c, i + 1) }
+}
+/// the n-th piece (0-based) of s split at every c (str::split: "An iterator over substrings of this string slice, separated by
+/// characters matched by a pattern"); None if there are fewer pieces
+pub open spec fn split_nth(s: Seq<char>, c: char, n: nat) -> Option<Seq<char>>
+    decreases n
+{
+    let k = find_ch(s, c, 0);
+    if n == 0 { Some(s.subrange(0, k)) } else if k >= s.len() { None } else { split_nth(s.subrange(k + 1, s.len() as int), c, (n - 1) as nat) }
+}
+#[verifier::external_body]
+fn verif_str_split_nth<'a>(s: &'a str, c: char, n: usize) -> (r: Option<&'a str>)
+    ensures
+        r is Some <==> split_nth(s@, c, n as nat) is Some,
+        r is Some ==> r->Some_0@ == split_nth(s@, c, n as nat)->Some_0,
+{ unimplemented!() }
 
 // TRUSTED: `#[derive(Clone)]` / `#[derive(Default)]` + `#[default] Empty` on Data and DataRef (same text as in unit lazyrange)
 pub assume_specification<'a>[ <DataRef<'a> as Default>::default ]() -> (r: DataRef<'a>) ensures r == DataRef::<'a>::Empty;
@@ -176,11 +281,251 @@ pub open spec fn window_of<T: CellType>(r: Range<T>, src: Range<T>, s: (u32, u32
 // =====================================================================================================================
 // A-xml: GHOST MODEL OF quick-xml 0.37 (configuration set by xlsx::xml_reader: trim_text(false), expand_empty_elements = true,
 // check_end_names = false).  Everything in this section is TRUSTED.  A reader owns the ghost sequence `events()` of the results
-// its successive `read_event_into` calls deliver, and a position `pos()`.
+// its successive `read_event_into` calls deliver, and a position `pos()`.  What is ASSUMED AND NOT VERIFIED: that quick-xml turns
+// the bytes of the zip part into this sequence (tokenisation, `<a/>` delivered as Start+End, attribute splitting, entity / character
+// reference resolution in `unescape` / `decode_and_unescape_value`, white space preserved).
+// DIFFERENT ghost values, never conflated by the contracts: the QUALIFIED name of a tag or attribute as written (`x15:workbookPr`,
+// `r:id`), its LOCAL part (`workbookPr`, `id`), its PREFIX, and the NAMESPACE NAME the prefix (or the default namespace) is bound to at
+// that point of the document (XML Namespaces 1.0; quick-xml's plain Reader does not resolve it: it is a fact about the document);
+// the RAW bytes of an attribute value / text as written and the UNESCAPED text (`unesc`, uninterpreted).
 // =====================================================================================================================
+pub enum EvKind {
+    Start,   // start tag (or the first half of an empty-element tag)
+    End,     // end tag (or the second half of an empty-element tag)
+    Text,    // character data between tags
+    CData,   // <![CDATA[ ... ]]>, literal content in `text`
+    Other,   // comment, processing instruction, XML declaration, DOCTYPE
+    Error,   // the reader returns Err at this point
+}
+pub ghost struct Attr {
+    pub ok: bool,                  // the attribute is syntactically well formed and not a duplicate (the iterator yields Ok)
+    pub key: Seq<u8>,              // qualified attribute name as written, e.g. `r:id`
+    pub local: Seq<u8>,            // its local part, e.g. `id`
+    pub ns: Seq<u8>,               // namespace name its prefix is bound to (empty: unprefixed attributes are in no namespace)
+    pub raw: Seq<u8>,              // value bytes as written between the quotes (what `Attribute::value` holds)
+}
+pub ghost struct Ev {
+    pub kind: EvKind,
+    pub name: Seq<u8>,             // qualified tag name as written, e.g. `x15:workbookPr` (Start / End)
+    pub prefix: Option<Seq<u8>>,   // its namespace prefix, e.g. Some(`x15`); None: unprefixed
+    pub local: Seq<u8>,            // its local part, e.g. `workbookPr`
+    pub ns: Seq<u8>,               // namespace name the element belongs to (binding of the prefix / default namespace in scope)
+    pub attrs: Seq<Attr>,          // attributes in document order (Start)
+    pub text: Seq<char>,           // content of a Text event after unescaping, literal content of a CData event
+    pub text_ok: bool,             // `unescape()` succeeds on this Text event
+}
+/// attribute value decoded with entity / character references resolved (what `decode_and_unescape_value` returns); None: error
+pub uninterp spec fn unesc(raw: Seq<u8>) -> Option<Seq<char>>;
+/// XML Namespaces: QName = (Prefix ':')? LocalPart
+pub open spec fn qname_of(prefix: Option<Seq<u8>>, local: Seq<u8>) -> Seq<u8> {
+    match prefix { None => local, Some(p) => p + seq![0x3au8] + local }
+}
+impl Ev {
+    pub open spec fn is_tag(self) -> bool { self.kind is Start || self.kind is End }
+    /// the qualified name is prefix + ':' + local part
+    pub open spec fn wf(self) -> bool { self.is_tag() ==> self.name == qname_of(self.prefix, self.local) }
+}
+/// the spreadsheetml main namespace `http://schemas.openxmlformats.org/spreadsheetml/2006/main` (or its Strict twin)
+pub uninterp spec fn is_main_ns(ns: Seq<u8>) -> bool;
+/// the officeDocument relationships namespace `http://schemas.openxmlformats.org/officeDocument/2006/relationships`
+pub uninterp spec fn is_rel_ns(ns: Seq<u8>) -> bool;
+
+// TRUSTED: A-std -- `Cow::deref` / `Cow::as_ref` yield the borrowed or owned content; `cow_ref` names it
+pub uninterp spec fn cow_ref<'a, 'b, B: ?Sized + ToOwned>(c: &'b Cow<'a, B>) -> &'b B;
+pub assume_specification<'a, 'b, B: ?Sized + ToOwned>[ <Cow<'a, B> as Deref>::deref ](c: &'b Cow<'a, B>) -> (r: &'b B)
+    ensures r == cow_ref(c);
+pub assume_specification<'a, 'b, T: ?Sized + ToOwned>[ <Cow<'a, T> as AsRef<T>>::as_ref ](c: &'b Cow<'a, T>) -> (r: &'b T)
+    ensures r == cow_ref(c);
+
+// TRUSTED: A-xml -- quick_xml::name::QName (a tuple struct over the qualified-name bytes; `==` compares the bytes)
+pub struct QName<'a>(pub &'a [u8]);
+impl<'a> PartialEq for QName<'a> {
+    #[verifier::external_body]
+    fn eq(&self, o: &QName<'a>) -> (r: bool) ensures r == (self.0@ =~= o.0@) { unimplemented!() }
+}
+impl<'a> QName<'a> {
+    // TRUSTED: A-xml -- `AsRef<[u8]> for QName`
+    #[verifier::external_body]
+    pub fn as_ref(&self) -> (r: &[u8]) ensures r@ == self.0@ { unimplemented!() }
+}
+// TRUSTED: A-xml -- quick_xml::name::LocalName
+#[verifier::external_body]
+pub struct LocalName<'a> { _p: core::marker::PhantomData<&'a ()> }
+impl<'a> LocalName<'a> {
+    pub uninterp spec fn bytes(&self) -> Seq<u8>;
+    // TRUSTED: A-xml
+    #[verifier::external_body]
+    pub fn as_ref(&self) -> (r: &[u8]) ensures r@ == self.bytes() { unimplemented!() }
+}
+// TRUSTED: A-xml -- quick_xml::encoding::Decoder (UTF-8 unless the XML declaration says otherwise; folded into `unesc`)
+pub struct Decoder { _p: u8 }
+// TRUSTED: A-xml -- quick_xml::events::attributes::Attribute (public fields `key`, `value`: the verified code matches on them)
+pub struct Attribute<'a> { pub key: QName<'a>, pub value: Cow<'a, [u8]> }
+impl<'a> Attribute<'a> {
+    /// this exec attribute carries the qualified name and raw value of the ghost attribute
+    pub open spec fn is(&self, a: Attr) -> bool { self.key.0@ == a.key && cow_ref(&self.value)@ == a.raw }
+    // TRUSTED: A-xml -- decodes the raw value and resolves entity / character references
+    #[verifier::external_body]
+    pub fn decode_and_unescape_value(&self, decoder: Decoder) -> (r: Result<Cow<'a, str>, quick_xml::Error>)
+        ensures
+            unesc(cow_ref(&self.value)@) is Some ==> r is Ok && cow_ref(&r->Ok_0)@ == unesc(cow_ref(&self.value)@)->Some_0,
+            unesc(cow_ref(&self.value)@) is None ==> r is Err,
+    { unimplemented!() }
+}
+/// the results the attribute iterator yields for the ghost attributes
+pub open spec fn attrs_match<'a>(items: Seq<Result<Attribute<'a>, quick_xml::events::attributes::AttrError>>, attrs: Seq<Attr>) -> bool {
+    &&& items.len() == attrs.len()
+    &&& forall|i: int| 0 <= i < attrs.len() ==> ((#[trigger] items[i]) is Ok <==> attrs[i].ok)
+    &&& forall|i: int| 0 <= i < attrs.len() && attrs[i].ok ==> (#[trigger] items[i])->Ok_0.is(attrs[i])
+}
+// TRUSTED: A-xml -- quick_xml::events::attributes::Attributes: an iterator over Result<Attribute, AttrError>, one item per attribute in
+// document order
+#[verifier::external_body]
+pub struct Attributes<'a> { _p: core::marker::PhantomData<&'a ()> }
+impl<'a> Attributes<'a> {
+    pub uninterp spec fn items(&self) -> Seq<Result<Attribute<'a>, quick_xml::events::attributes::AttrError>>;
+    // TRUSTED: A-std + A-xml -- `attributes().filter_map(Result::ok)`: the successfully parsed attributes, in order (stands for
+    // Iterator::filter_map with the function `Result::ok`; the argument is not inspected)
+    #[verifier::external_body]
+    pub fn filter_map<B, F: FnMut(Result<Attribute<'a>, quick_xml::events::attributes::AttrError>) -> Option<B>>(self, f: F) -> (r: OkAttributes<'a>)
+        ensures r.src() == self.items(),
+    { unimplemented!() }
+}
+impl<'a> Iterator for Attributes<'a> {
+    type Item = Result<Attribute<'a>, quick_xml::events::attributes::AttrError>;
+    #[verifier::external_body]
+    fn next(&mut self) -> (r: Option<Self::Item>) { unimplemented!() }
+}
+impl<'a> IteratorSpecImpl for Attributes<'a> {
+    open spec fn obeys_prophetic_iter_laws(&self) -> bool { true }
+    open spec fn remaining(&self) -> Seq<Result<Attribute<'a>, quick_xml::events::attributes::AttrError>> { self.items() }
+    open spec fn will_return_none(&self) -> bool { true }
+    open spec fn decrease(&self) -> Option<nat> { Some(self.items().len()) }
+    open spec fn peek(&self, i: int) -> Option<Result<Attribute<'a>, quick_xml::events::attributes::AttrError>> {
+        if 0 <= i < self.items().len() { Some(self.items()[i]) } else { None }
+    }
+}
+// TRUSTED: stand-in for `FilterMap<Attributes, fn(Result<..>) -> Option<..>>` as produced by `.filter_map(Result::ok)`
+#[verifier::external_body]
+pub struct OkAttributes<'a> { _p: core::marker::PhantomData<&'a ()> }
+impl<'a> OkAttributes<'a> {
+    pub uninterp spec fn src(&self) -> Seq<Result<Attribute<'a>, quick_xml::events::attributes::AttrError>>;
+    // TRUSTED: A-std -- Iterator::find on it: the first Ok item (in order) for which the predicate returns true
+    #[verifier::external_body]
+    pub fn find<P: FnMut(&Attribute<'a>) -> bool>(&mut self, pred: P) -> (r: Option<Attribute<'a>>)
+        ensures
+            match r {
+                Some(x) => exists|i: int| 0 <= i < old(self).src().len() && (#[trigger] old(self).src()[i]) == Ok::<Attribute<'a>, quick_xml::events::attributes::AttrError>(x)
+                    && call_ensures(pred, (&x,), true)
+                    && forall|j: int| 0 <= j < i && (#[trigger] old(self).src()[j]) is Ok ==> call_ensures(pred, (&old(self).src()[j]->Ok_0,), false),
+                None => forall|j: int| 0 <= j < old(self).src().len() && (#[trigger] old(self).src()[j]) is Ok ==> call_ensures(pred, (&old(self).src()[j]->Ok_0,), false),
+            },
+    { unimplemented!() }
+}
+
+// TRUSTED: A-xml -- quick_xml::events::{BytesStart, BytesEnd, BytesText, BytesCData}: views onto one ghost event
+#[verifier::external_body]
+pub struct BytesStart<'a> { _p: core::marker::PhantomData<&'a ()> }
+#[verifier::external_body]
+pub struct BytesEnd<'a> { _p: core::marker::PhantomData<&'a ()> }
+#[verifier::external_body]
+pub struct BytesText<'a> { _p: core::marker::PhantomData<&'a ()> }
+#[verifier::external_body]
+pub struct BytesCData<'a> { _p: core::marker::PhantomData<&'a ()> }
+// TRUSTED: A-xml -- quick_xml::events::Event; `Other` stands for Comment / PI / Decl / DocType (never named by the verified code;
+// `Empty` cannot occur with expand_empty_elements = true)
+pub enum Event<'a> {
+    Start(BytesStart<'a>),
+    End(BytesEnd<'a>),
+    Text(BytesText<'a>),
+    CData(BytesCData<'a>),
+    Other,
+    Eof,
+}
+/// ASCII text as bytes
+pub open spec fn bytes_of(s: Seq<char>) -> Seq<u8> { s.map_values(|c: char| c as u8) }
+/// index of the first attribute at or after i that is malformed or has this qualified name; attrs.len() if none
+pub open spec fn tga_idx(attrs: Seq<Attr>, key: Seq<u8>, i: int) -> int
+    decreases attrs.len() - i
+{
+    if i < 0 || i >= attrs.len() { attrs.len() as int } else if !attrs[i].ok || attrs[i].key == key { i } else { tga_idx(attrs, key, i + 1) }
+}
+impl<'a> BytesStart<'a> {
+    pub uninterp spec fn ev(&self) -> Ev;
+    // TRUSTED: A-xml
+    #[verifier::external_body]
+    pub fn name(&self) -> (r: QName<'_>) ensures r.0@ == self.ev().name { unimplemented!() }
+    // TRUSTED: A-xml
+    #[verifier::external_body]
+    pub fn local_name(&self) -> (r: LocalName<'_>) ensures r.bytes() == self.ev().local { unimplemented!() }
+    // TRUSTED: A-xml
+    #[verifier::external_body]
+    pub fn attributes(&self) -> (r: Attributes<'_>) ensures attrs_match(r.items(), self.ev().attrs) { unimplemented!() }
+    // TRUSTED: A-xml -- "Try to get an attribute": iterates the attributes, returns the first whose qualified name equals `attr_name`
+    // (Ok(None) if there is none), or the error of a malformed attribute met before it.  (Real signature: `N: AsRef<[u8]> + Sized`.)
+    #[verifier::external_body]
+    pub fn try_get_attribute(&self, attr_name: &str) -> (r: Result<Option<Attribute<'_>>, quick_xml::events::attributes::AttrError>)
+        ensures ({
+            let at = self.ev().attrs;
+            let k = tga_idx(at, bytes_of(attr_name@), 0);
+            if k >= at.len() { r matches Ok(None) } else if !at[k].ok { r is Err } else { r matches Ok(Some(a)) && a.is(at[k]) }
+        }),
+    { unimplemented!() }
+}
+impl<'a> BytesEnd<'a> {
+    pub uninterp spec fn ev(&self) -> Ev;
+    // TRUSTED: A-xml
+    #[verifier::external_body]
+    pub fn name(&self) -> (r: QName<'_>) ensures r.0@ == self.ev().name { unimplemented!() }
+    // TRUSTED: A-xml
+    #[verifier::external_body]
+    pub fn local_name(&self) -> (r: LocalName<'_>) ensures r.bytes() == self.ev().local { unimplemented!() }
+}
+impl<'a> BytesText<'a> {
+    pub uninterp spec fn ev(&self) -> Ev;
+    // TRUSTED: A-xml -- `unescape` returns the text with the predefined entities and character references resolved, or Err
+    #[verifier::external_body]
+    pub fn unescape(&self) -> (r: Result<Cow<'a, str>, quick_xml::Error>)
+        ensures
+            self.ev().text_ok ==> r is Ok && cow_ref(&r->Ok_0)@ == self.ev().text,
+            !self.ev().text_ok ==> r is Err,
+    { unimplemented!() }
+}
+impl<'a> BytesCData<'a> {
+    pub uninterp spec fn ev(&self) -> Ev;
+}
+/// the result `read_event_into` delivers for the ghost event e
+pub open spec fn ev_result<'b>(r: Result<Event<'b>, quick_xml::Error>, e: Ev) -> bool {
+    match e.kind {
+        EvKind::Start => r matches Ok(Event::Start(b)) && b.ev() == e,
+        EvKind::End => r matches Ok(Event::End(b)) && b.ev() == e,
+        EvKind::Text => r matches Ok(Event::Text(b)) && b.ev() == e,
+        EvKind::CData => r matches Ok(Event::CData(b)) && b.ev() == e,
+        EvKind::Other => r matches Ok(Event::Other),
+        EvKind::Error => r is Err,
+    }
+}
 // TRUSTED: A-xml -- quick_xml::Reader<BufReader<ZipFile>> (type alias XlReader of src/xlsx/mod.rs)
 #[verifier::external_body]
 pub struct XlReader<'a> { _p: core::marker::PhantomData<&'a ()> }
+impl<'a> XlReader<'a> {
+    pub uninterp spec fn events(&self) -> Seq<Ev>;
+    pub uninterp spec fn pos(&self) -> nat;
+    pub open spec fn left(&self) -> int { if self.pos() >= self.events().len() { 0 } else { self.events().len() - self.pos() } }
+    // TRUSTED: A-xml -- returns events[pos] and advances; at the end of input returns Eof for ever; qualified names are prefix:local
+    #[verifier::external_body]
+    pub fn read_event_into<'b>(&mut self, buf: &'b mut Vec<u8>) -> (r: Result<Event<'b>, quick_xml::Error>)
+        ensures
+            final(self).events() == old(self).events(),
+            old(self).pos() >= old(self).events().len() ==> (r matches Ok(Event::Eof)) && final(self).pos() == old(self).pos(),
+            old(self).pos() < old(self).events().len() ==>
+                final(self).pos() == old(self).pos() + 1 && ev_result(r, old(self).events()[old(self).pos() as int])
+                && old(self).events()[old(self).pos() as int].wf(),
+    { unimplemented!() }
+    // TRUSTED: A-xml
+    #[verifier::external_body]
+    pub fn decoder(&self) -> Decoder { unimplemented!() }
+}
 
 // =====================================================================================================================
 // A-zip: the zip container.  TRUSTED: `ZipArchive` is a stand-in for zip::read::ZipArchive.  `content()` is the logical content
@@ -196,15 +541,8 @@ pub ghost struct ZipContent { _p: u8 }
 pub uninterp spec fn content<RS>(zip: ZipArchive<RS>) -> ZipContent;
 /// the archive has a part with this name (compared ASCII-case-insensitively: xml_reader looks names up with eq_ignore_ascii_case)
 pub uninterp spec fn has_part(c: ZipContent, path: Seq<char>) -> bool;
-/// what a reader opened on that part is: Err (zip-level error) or the reader's source identity
-pub uninterp spec fn part_src(c: ZipContent, path: Seq<char>) -> Option<XmlSrc>;
-/// identity of the XML source a reader was opened on (abstract; unit xlsxxml models it as the event sequence)
-#[verifier::external_body]
-pub ghost struct XmlSrc { _p: u8 }
-impl<'a> XlReader<'a> {
-    pub uninterp spec fn src(&self) -> XmlSrc;
-    pub uninterp spec fn pos(&self) -> nat;
-}
+/// the XML events of that part; None: the part cannot be opened (zip-level error)
+pub uninterp spec fn part_events(c: ZipContent, path: Seq<char>) -> Option<Seq<Ev>>;
 // TRUSTED: A-zip, A-xml -- src/xlsx/mod.rs xml_reader (a case-insensitive `file_names().find(..)` + `by_name` + reader configuration) is
 // not under contract here: None iff the archive has no such part; the reader it returns is a function of the archive content and the
 // part name only, positioned at the start; the archive content is unchanged
@@ -213,8 +551,8 @@ fn xml_reader<'a, RS: Read + Seek>(zip: &'a mut ZipArchive<RS>, path: &str) -> (
     ensures
         content(*final(zip)) == content(*old(zip)),
         r is None <==> !has_part(content(*old(zip)), path@),
-        r is Some && r->Some_0 is Ok ==> part_src(content(*old(zip)), path@) == Some((r->Some_0->Ok_0).src()) && (r->Some_0->Ok_0).pos() == 0,
-        r is Some && r->Some_0 is Err ==> part_src(content(*old(zip)), path@) is None,
+        r is Some && r->Some_0 is Ok ==> part_events(content(*old(zip)), path@) == Some((r->Some_0->Ok_0).events()) && (r->Some_0->Ok_0).pos() == 0,
+        r is Some && r->Some_0 is Err ==> part_events(content(*old(zip)), path@) is None,
 { unimplemented!() }
 
 // TRUSTED: stand-in for src/xlsx/cells_reader.rs XlsxCellReader (the cell iterator; `next_cell` & co are under contract in unit xlsxxml /
@@ -222,7 +560,7 @@ fn xml_reader<'a, RS: Read + Seek>(zip: &'a mut ZipArchive<RS>, path: &str) -> (
 #[verifier::external_body]
 pub struct XlsxCellReader<'a> { _p: core::marker::PhantomData<&'a ()> }
 impl<'a> XlsxCellReader<'a> {
-    pub uninterp spec fn xml_src(&self) -> XmlSrc;
+    pub uninterp spec fn xml_events(&self) -> Seq<Ev>;
     pub uninterp spec fn strings(&self) -> Seq<String>;
     pub uninterp spec fn formats(&self) -> Seq<CellFormat>;
     pub uninterp spec fn is_1904(&self) -> bool;
@@ -231,13 +569,13 @@ impl<'a> XlsxCellReader<'a> {
     #[verifier::external_body]
     pub fn new(xml: XlReader<'a>, strings: &'a [String], formats: &'a [CellFormat], is_1904: bool) -> (r: Result<XlsxCellReader<'a>, XlsxError>)
         ensures
-            r is Ok ==> (r->Ok_0).xml_src() == xml.src() && (r->Ok_0).strings() == strings@ && (r->Ok_0).formats() == formats@
+            r is Ok ==> (r->Ok_0).xml_events() == xml.events() && (r->Ok_0).strings() == strings@ && (r->Ok_0).formats() == formats@
                 && (r->Ok_0).is_1904() == is_1904,
-            r is Ok <==> prologue_ok(xml.src()),
+            r is Ok <==> prologue_ok(xml.events()),
     { unimplemented!() }
 }
 /// the prologue of the sheet part (up to `<sheetData>`) is readable (abstract)
-pub uninterp spec fn prologue_ok(s: XmlSrc) -> bool;
+pub uninterp spec fn prologue_ok(s: Seq<Ev>) -> bool;
 
 // =====================================================================================================================
 // State of an opened workbook (frame conditions quantify over the REAL fields of struct Xlsx, extracted above)
@@ -278,7 +616,7 @@ impl<RS> Xlsx<RS> {
         //# C07.cells_reader_from_named_sheet_only
         r is Ok ==> exists|i: int| 0 <= i < old(self).g_sheets()@.len() && (#[trigger] old(self).g_sheets()@[i]).0@ == name@
             && (forall|j: int| 0 <= j < i ==> (#[trigger] old(self).g_sheets()@[j]).0@ != name@)
-            && part_src(content(old(self).g_zip()), old(self).g_sheets()@[i].1@) == Some((r->Ok_0).xml_src()),
+            && part_events(content(old(self).g_zip()), old(self).g_sheets()@[i].1@) == Some((r->Ok_0).xml_events()),
         //# C07.cells_reader_strings_formats
         r is Ok ==> (r->Ok_0).strings() == old(self).g_strings()@ && (r->Ok_0).formats() == old(self).g_formats()@,
         //# C16.date_system_flag_reaches_cells
@@ -349,9 +687,23 @@ impl<RS: Read + Seek> ReaderRef<RS> for Xlsx<RS> {
     { unimplemented!() }
 }
 
+impl<T> Table<T> {
+    pub closed spec fn t_name(&self) -> Seq<char> { self.name@ }
+    pub closed spec fn t_sheet(&self) -> Seq<char> { self.sheet_name@ }
+    pub closed spec fn t_cols(&self) -> Seq<Seq<char>> { strs(self.columns@) }
+    pub closed spec fn t_data(&self) -> Range<T> { self.data }
+}
 /// dimensions a window can be cut with (precondition of Range::new / Range::range): corners ordered component-wise, u32 cell count
 pub open spec fn dims_ok(d: Dimensions) -> bool {
     d.start.0 <= d.end.0 && d.start.1 <= d.end.1 && (d.end.0 - d.start.0 + 1) * (d.end.1 - d.start.1 + 1) <= u32::MAX
+}
+
+/// witness for the precondition "tables are loaded" (the API protocol `load_tables()` before `table_by_name`; not a condition on the file)
+proof fn witness_tables_loaded<RS>(x: Xlsx<RS>)
+    ensures exists|y: Xlsx<RS>| y.g_tables() is Some,
+{
+    let y = Xlsx { tables: Some(arbitrary()), ..x };
+    assert(y.g_tables() is Some);
 }
 
 //@@ impl src/xlsx/mod.rs Xlsx
@@ -381,6 +733,508 @@ pub open spec fn dims_ok(d: Dimensions) -> bool {
         proof {
             assert(exists|k: int| 0 <= k < tb.len() && (#[trigger] tb[k]) == *match_table_meta && tb[k].0@ == table_name@ && forall|j: int| 0 <= j < k ==> (#[trigger] tb[j]).0@ != table_name@);
         }
+//@@ end
+//@@ fn src/xlsx/mod.rs Xlsx::table_by_name props=C17,C07 entry ret=r
+//@@ sig
+    requires
+        //# C17.tables_loaded  (documented: "Tables must be loaded before they are referenced")
+        old(self).g_tables() is Some,
+    ensures
+        //# C07.table_read_is_pure
+        final(self).loaded() == old(self).loaded(),
+        //# C07.table_read_keeps_header_row_option
+        final(self).g_opts() == old(self).g_opts(),
+        //# C17.unknown_table_is_error
+        !old(self).has_table(table_name@) ==> r is Err && r->Err_0 is TableNotFound,
+        //# C17.table_meta_copied
+        r is Ok ==> exists|i: int| 0 <= i < old(self).g_tables()->Some_0@.len() && (#[trigger] old(self).g_tables()->Some_0@[i]).0@ == table_name@
+            && (forall|j: int| 0 <= j < i ==> (#[trigger] old(self).g_tables()->Some_0@[j]).0@ != table_name@)
+            && (r->Ok_0).t_name() == old(self).g_tables()->Some_0@[i].0@ && (r->Ok_0).t_sheet() == old(self).g_tables()->Some_0@[i].1@
+            && (r->Ok_0).t_cols() == strs(old(self).g_tables()->Some_0@[i].2@),
+        //# C17.table_data_range
+        r is Ok ==> exists|i: int| 0 <= i < old(self).g_tables()->Some_0@.len() && (#[trigger] old(self).g_tables()->Some_0@[i]).0@ == table_name@
+            && (forall|j: int| 0 <= j < i ==> (#[trigger] old(self).g_tables()->Some_0@[j]).0@ != table_name@)
+            && ({ let e = old(self).g_tables()->Some_0@[i]; let sheet = ws_range(old(self).loaded(), old(self).g_opts(), e.1@);
+                  sheet is Ok && window_of((r->Ok_0).t_data(), sheet->Ok_0, e.3.start, e.3.end) }),
+        //# C17.table_sheet_error_is_returned
+        forall|i: int| 0 <= i < old(self).g_tables()->Some_0@.len() && (#[trigger] old(self).g_tables()->Some_0@[i]).0@ == table_name@
+            && (forall|j: int| 0 <= j < i ==> (#[trigger] old(self).g_tables()->Some_0@[j]).0@ != table_name@)
+            && ws_range(old(self).loaded(), old(self).g_opts(), old(self).g_tables()->Some_0@[i].1@) is Err ==> r is Err,
+//@@ end
+//@@ fn src/xlsx/mod.rs Xlsx::table_by_name_ref props=C17,C07 entry ret=r
+//@@ sig
+    requires
+        //# C17.tables_loaded  (documented: "Tables must be loaded before they are referenced")
+        old(self).g_tables() is Some,
+    ensures
+        //# C07.table_read_is_pure
+        final(self).loaded() == old(self).loaded(),
+        //# C07.table_read_keeps_header_row_option
+        final(self).g_opts() == old(self).g_opts(),
+        //# C17.unknown_table_is_error
+        !old(self).has_table(table_name@) ==> r is Err && r->Err_0 is TableNotFound,
+        //# C17.table_meta_copied
+        r is Ok ==> exists|i: int| 0 <= i < old(self).g_tables()->Some_0@.len() && (#[trigger] old(self).g_tables()->Some_0@[i]).0@ == table_name@
+            && (forall|j: int| 0 <= j < i ==> (#[trigger] old(self).g_tables()->Some_0@[j]).0@ != table_name@)
+            && (r->Ok_0).t_name() == old(self).g_tables()->Some_0@[i].0@ && (r->Ok_0).t_sheet() == old(self).g_tables()->Some_0@[i].1@
+            && (r->Ok_0).t_cols() == strs(old(self).g_tables()->Some_0@[i].2@),
+        //# C17.table_data_range
+        r is Ok ==> exists|i: int| 0 <= i < old(self).g_tables()->Some_0@.len() && (#[trigger] old(self).g_tables()->Some_0@[i]).0@ == table_name@
+            && (forall|j: int| 0 <= j < i ==> (#[trigger] old(self).g_tables()->Some_0@[j]).0@ != table_name@)
+            && ({ let e = old(self).g_tables()->Some_0@[i]; let sheet = ws_range_ref::<'_>(old(self).loaded(), old(self).g_opts(), e.1@);
+                  sheet is Ok && window_of((r->Ok_0).t_data(), sheet->Ok_0, e.3.start, e.3.end) }),
+//@@ end
+//@@ endimpl
+
+
+// =====================================================================================================================
+// C16: workbook.xml.  ECMA-376 Part 1, 18.2.27 workbook (CT_Workbook): sequence of fileVersion?, fileSharing?, workbookPr?,
+// workbookProtection?, bookViews?, sheets, functionGroups?, externalReferences?, definedNames?, calcPr?, ... , extLst?.
+//   18.2.20 sheets = sheet+ ; 18.2.19 sheet (CT_Sheet): attributes name (required), sheetId, state (ST_SheetState: visible | hidden |
+//   veryHidden, default visible), r:id (required; relationship of the sheet part).
+//   18.2.6 definedNames = definedName+ ; 18.2.5 definedName: attribute name (required), content = the formula text (xsd:string).
+//   18.2.28 workbookPr: attribute date1904 (xsd:boolean, default false) -- "the date system used in the workbook".
+// All these elements belong to the spreadsheetml MAIN namespace; whether that namespace is the default namespace or bound to a prefix
+// is a property of the encoding, not of the workbook (XML Namespaces).  Extension lists (extLst/ext) carry elements of OTHER
+// namespaces, among them `x15:workbookPr` of Excel 2013+, which is not the workbook's workbookPr.
+// The definition below walks the event sequence with the element context of the schema.
+// =====================================================================================================================
+pub open spec fn n_sheet() -> Seq<u8> { seq![0x73u8, 0x68u8, 0x65u8, 0x65u8, 0x74u8] }   // sheet
+pub open spec fn n_sheets() -> Seq<u8> { seq![0x73u8, 0x68u8, 0x65u8, 0x65u8, 0x74u8, 0x73u8] }   // sheets
+pub open spec fn n_workbook() -> Seq<u8> { seq![0x77u8, 0x6fu8, 0x72u8, 0x6bu8, 0x62u8, 0x6fu8, 0x6fu8, 0x6bu8] }   // workbook
+pub open spec fn n_workbookpr() -> Seq<u8> { seq![0x77u8, 0x6fu8, 0x72u8, 0x6bu8, 0x62u8, 0x6fu8, 0x6fu8, 0x6bu8, 0x50u8, 0x72u8] }   // workbookPr
+pub open spec fn n_definedname() -> Seq<u8> { seq![0x64u8, 0x65u8, 0x66u8, 0x69u8, 0x6eu8, 0x65u8, 0x64u8, 0x4eu8, 0x61u8, 0x6du8, 0x65u8] }   // definedName
+pub open spec fn n_definednames() -> Seq<u8> { seq![0x64u8, 0x65u8, 0x66u8, 0x69u8, 0x6eu8, 0x65u8, 0x64u8, 0x4eu8, 0x61u8, 0x6du8, 0x65u8, 0x73u8] }   // definedNames
+pub open spec fn k_name() -> Seq<u8> { seq![0x6eu8, 0x61u8, 0x6du8, 0x65u8] }   // name
+pub open spec fn k_state() -> Seq<u8> { seq![0x73u8, 0x74u8, 0x61u8, 0x74u8, 0x65u8] }   // state
+pub open spec fn k_rid() -> Seq<u8> { seq![0x72u8, 0x3au8, 0x69u8, 0x64u8] }   // r:id
+pub open spec fn k_relsid() -> Seq<u8> { seq![0x72u8, 0x65u8, 0x6cu8, 0x61u8, 0x74u8, 0x69u8, 0x6fu8, 0x6eu8, 0x73u8, 0x68u8, 0x69u8, 0x70u8, 0x73u8, 0x3au8, 0x69u8, 0x64u8] }   // relationships:id
+pub open spec fn k_id() -> Seq<u8> { seq![0x69u8, 0x64u8] }   // id
+pub open spec fn k_date1904() -> Seq<u8> { seq![0x64u8, 0x61u8, 0x74u8, 0x65u8, 0x31u8, 0x39u8, 0x30u8, 0x34u8] }   // date1904
+// TRUSTED: A-lit -- Verus keeps the contents of byte-string literals uninterpreted (only their length is known); the bytes of the
+// literals the verified code compares names with are stated here (ASCII)
+#[verifier::external_body]
+pub proof fn axiom_bytelits()
+    ensures
+        b"sheet"@ == n_sheet(), b"workbookPr"@ == n_workbookpr(), b"definedName"@ == n_definedname(), b"workbook"@ == n_workbook(),
+        b"name"@ == k_name(), b"state"@ == k_state(), b"r:id"@ == k_rid(), b"relationships:id"@ == k_relsid(),
+{}
+proof fn lemma_names_distinct()
+    ensures
+        n_sheet() != n_workbookpr(), n_sheet() != n_definedname(), n_sheet() != n_workbook(), n_sheet() != n_sheets(), n_sheet() != n_definednames(),
+        n_workbookpr() != n_definedname(), n_workbookpr() != n_workbook(), n_workbookpr() != n_sheets(), n_workbookpr() != n_definednames(),
+        n_definedname() != n_workbook(), n_definedname() != n_sheets(), n_definedname() != n_definednames(),
+        n_workbook() != n_sheets(), n_workbook() != n_definednames(), n_sheets() != n_definednames(),
+        k_name() != k_state(), k_name() != k_rid(), k_name() != k_relsid(), k_state() != k_rid(), k_state() != k_relsid(), k_rid() != k_relsid(),
+{
+    assert(n_sheet().len() == 5 && n_sheets().len() == 6 && n_workbook().len() == 8 && n_workbookpr().len() == 10 && n_definedname().len() == 11 && n_definednames().len() == 12);
+    assert(k_name().len() == 4 && k_state().len() == 5 && k_rid().len() == 4 && k_relsid().len() == 16);
+    assert(k_name()[0] != k_rid()[0]);
+}
+/// the name `workbookPr` has no colon
+proof fn lemma_wbpr_no_colon(k: int)
+    requires 0 <= k < 10,
+    ensures n_workbookpr()[k] != 0x3au8,
+{
+    let s = n_workbookpr();
+    assert(s[0] != 0x3au8 && s[1] != 0x3au8 && s[2] != 0x3au8 && s[3] != 0x3au8 && s[4] != 0x3au8 && s[5] != 0x3au8 && s[6] != 0x3au8 && s[7] != 0x3au8 && s[8] != 0x3au8 && s[9] != 0x3au8);
+}
+/// a tag is written `workbookPr` iff it is unprefixed with local part workbookPr
+proof fn lemma_wbpr_name(e: Ev)
+    requires e.is_tag(), e.wf(),
+    ensures e.name == n_workbookpr() <==> (e.prefix is None && e.local == n_workbookpr()),
+{
+    if e.prefix is Some {
+        let p = e.prefix->Some_0;
+        if e.name == n_workbookpr() {
+            assert(e.name == p + seq![0x3au8] + e.local);
+            assert(e.name[p.len() as int] == 0x3au8);
+            assert(e.name.len() == p.len() + 1 + e.local.len());
+            lemma_wbpr_no_colon(p.len() as int);
+        }
+    }
+}
+
+pub ghost struct WbSheet { pub name: Seq<char>, pub vis: SheetVisible, pub path: Seq<char>, pub typ: SheetType }
+/// ST_SheetState
+pub open spec fn vis_of(s: Seq<char>) -> Option<SheetVisible> {
+    if s == "visible"@ { Some(SheetVisible::Visible) } else if s == "hidden"@ { Some(SheetVisible::Hidden) }
+    else if s == "veryHidden"@ { Some(SheetVisible::VeryHidden) } else { None }
+}
+/// part name of a relationship target of the workbook part: "/xl/x" -> "xl/x", "xl/x" -> "xl/x", "x" -> "xl/x"
+pub open spec fn norm_target(t: Seq<char>) -> Seq<char> {
+    if is_prefix("/xl/"@, t) { t.skip(1) } else if is_prefix("xl/"@, t) { t } else { "xl/"@ + t }
+}
+/// kind of a sheet from the folder of its part: xl/worksheets/.., xl/chartsheets/.., xl/dialogsheets/..
+pub open spec fn type_of_path(p: Seq<char>) -> Option<SheetType> {
+    match split_nth(p, '/', 1) {
+        Some(f) => if f == "worksheets"@ { Some(SheetType::WorkSheet) } else if f == "chartsheets"@ { Some(SheetType::ChartSheet) }
+                   else if f == "dialogsheets"@ { Some(SheetType::DialogSheet) } else { None },
+        None => None,
+    }
+}
+/// the relationship-id attribute of a sheet element: local name `id` in the relationships namespace (whatever the prefix)
+pub open spec fn rid_attr(a: Attr) -> bool { is_rel_ns(a.ns) && a.local == k_id() }
+/// ... as the conventional encodings write it
+pub open spec fn rid_key(a: Attr) -> bool { a.key == k_rid() || a.key == k_relsid() }
+pub ghost struct ShAcc { pub name: Seq<char>, pub vis: SheetVisible, pub path: Seq<char> }
+/// name / state / relationship target of a sheet element read off its first k attributes (XML: attribute names are unique per element,
+/// so the order of the visit is immaterial for a conforming document); None: an attribute is malformed, a value cannot be unescaped,
+/// the state is not a ST_SheetState value, or the relationship id is unknown
+pub open spec fn sh_fold(attrs: Seq<Attr>, k: int, rels: Map<Vec<u8>, String>) -> Option<ShAcc>
+    decreases k
+{
+    if k <= 0 { Some(ShAcc { name: Seq::empty(), vis: SheetVisible::Visible, path: Seq::empty() }) }
+    else {
+        match sh_fold(attrs, k - 1, rels) {
+            None => None,
+            Some(acc) => {
+                let a = attrs[k - 1];
+                if !a.ok { None }
+                else if a.key == k_name() { match unesc(a.raw) { Some(v) => Some(ShAcc { name: v, ..acc }), None => None } }
+                else if a.key == k_state() {
+                    match unesc(a.raw) { Some(v) => match vis_of(v) { Some(x) => Some(ShAcc { vis: x, ..acc }), None => None }, None => None }
+                }
+                else if rid_attr(a) { match rel_at(rels, a.raw) { Some(t) => Some(ShAcc { path: norm_target(t), ..acc }), None => None } }
+                else { Some(acc) }
+            },
+        }
+    }
+}
+pub open spec fn sheet_entry(e: Ev, rels: Map<Vec<u8>, String>) -> Option<WbSheet> {
+    match sh_fold(e.attrs, e.attrs.len() as int, rels) {
+        None => None,
+        Some(acc) => match type_of_path(acc.path) {
+            Some(t) => Some(WbSheet { name: acc.name, vis: acc.vis, path: acc.path, typ: t }),
+            None => None,
+        },
+    }
+}
+proof fn lemma_sh_fold_prefix(attrs: Seq<Attr>, k: int, n: int, rels: Map<Vec<u8>, String>)
+    requires 0 <= k <= n, sh_fold(attrs, n, rels) is Some,
+    ensures sh_fold(attrs, k, rels) is Some,
+    decreases n - k,
+{
+    if k < n { lemma_sh_fold_prefix(attrs, k + 1, n, rels); }
+}
+/// date1904 of a workbookPr element (xsd:boolean: "1" / "true"); None: malformed attribute
+pub open spec fn date1904_of(e: Ev) -> Option<bool> {
+    let k = tga_idx(e.attrs, k_date1904(), 0);
+    if k >= e.attrs.len() { Some(false) } else if !e.attrs[k].ok { None }
+    else { match unesc(e.attrs[k].raw) { None => None, Some(v) => Some(v == "1"@ || v == "true"@) } }
+}
+/// index of the first well-formed attribute at or after i written `name`; attrs.len() if none
+pub open spec fn dn_name_idx(attrs: Seq<Attr>, i: int) -> int
+    decreases attrs.len() - i
+{
+    if i < 0 || i >= attrs.len() { attrs.len() as int } else if attrs[i].ok && attrs[i].key == k_name() { i } else { dn_name_idx(attrs, i + 1) }
+}
+pub ghost struct DnRes { pub ok: bool, pub text: Seq<char>, pub end: int }
+/// content of a definedName element whose start tag was written `qname`: character data up to its end tag
+pub open spec fn dn_scan(ev: Seq<Ev>, i: int, qname: Seq<u8>, acc: Seq<char>) -> DnRes
+    decreases ev.len() - i
+{
+    if i < 0 || i >= ev.len() { DnRes { ok: false, text: acc, end: i } }
+    else {
+        let e = ev[i];
+        match e.kind {
+            EvKind::Error => DnRes { ok: false, text: acc, end: i },
+            EvKind::Text => if e.text_ok { dn_scan(ev, i + 1, qname, acc + e.text) } else { DnRes { ok: false, text: acc, end: i } },
+            EvKind::CData => dn_scan(ev, i + 1, qname, acc + e.text),
+            EvKind::Other => dn_scan(ev, i + 1, qname, acc),
+            EvKind::Start => DnRes { ok: false, text: acc, end: i },     // xsd:string content: no child elements
+            EvKind::End => if e.name == qname { DnRes { ok: true, text: acc, end: i } } else { DnRes { ok: false, text: acc, end: i } },
+        }
+    }
+}
+proof fn lemma_dn_end(ev: Seq<Ev>, i: int, qname: Seq<u8>, acc: Seq<char>)
+    requires 0 <= i, dn_scan(ev, i, qname, acc).ok,
+    ensures i <= dn_scan(ev, i, qname, acc).end < ev.len(),
+    decreases ev.len() - i,
+{
+    if i < ev.len() {
+        let e = ev[i];
+        match e.kind {
+            EvKind::Text => { if e.text_ok { lemma_dn_end(ev, i + 1, qname, acc + e.text); } }
+            EvKind::CData => { lemma_dn_end(ev, i + 1, qname, acc + e.text); }
+            EvKind::Other => { lemma_dn_end(ev, i + 1, qname, acc); }
+            _ => {}
+        }
+    }
+}
+pub enum WbCtx { Top, Sheets, Names }   // content of: workbook / sheets / definedNames
+pub ghost struct WbSt {
+    pub root: bool,                                  // the `workbook` start tag has been met
+    pub ctx: WbCtx,
+    pub skip: nat,                                   // > 0: inside an element whose content is skipped, at this depth
+    pub sheets: Seq<WbSheet>,                        // sheets declared so far, in document order
+    pub names: Seq<(Seq<char>, Seq<char>)>,          // defined names so far: (name, text)
+    pub pr: Option<bool>,                            // date1904 of the workbook's workbookPr, once met
+}
+pub ghost struct WbRes { pub ok: bool, pub sheets: Seq<WbSheet>, pub names: Seq<(Seq<char>, Seq<char>)>, pub pr: Option<bool>, pub end: int }
+pub open spec fn wb_bad(i: int) -> WbRes { WbRes { ok: false, sheets: Seq::empty(), names: Seq::empty(), pr: None, end: i } }
+pub open spec fn wb_init() -> WbSt { WbSt { root: false, ctx: WbCtx::Top, skip: 0, sheets: Seq::empty(), names: Seq::empty(), pr: None } }
+pub open spec fn is_main(e: Ev) -> bool { is_main_ns(e.ns) }
+/// a start tag the schema does not allow where it stands and that this definition does not cover: an element with local name `sheet` or
+/// `definedName` (any namespace) outside sheets / definedNames, or a MAIN-namespace `workbookPr` that is not a child of workbook.
+/// (Elements named workbookPr of OTHER namespaces, e.g. x15:workbookPr inside extLst, are ordinary skipped content.)
+pub open spec fn stray_start(e: Ev) -> bool {
+    e.local == n_sheet() || e.local == n_definedname() || (is_main(e) && e.local == n_workbookpr())
+}
+/// what the event ev[i] does in state s: continue in a new state at a later event, end of the workbook element, or not covered
+pub open spec fn wb_step(ev: Seq<Ev>, i: int, s: WbSt, rels: Map<Vec<u8>, String>) -> WbStep
+    recommends 0 <= i < ev.len()
+{
+    {
+        let e = ev[i];
+        if e.kind is Error { WbStep::Bad }
+        else if !s.root {
+            // prolog: XML declaration, comments, white space; then the root element
+            if e.kind is Start { if is_main(e) && e.local == n_workbook() { WbStep::Next(WbSt { root: true, ..s }, i + 1) } else { WbStep::Bad } }
+            else if e.kind is End { WbStep::Bad }
+            else { WbStep::Next(s, i + 1) }
+        } else if s.skip > 0 {
+            if e.kind is Start { if stray_start(e) { WbStep::Bad } else { WbStep::Next(WbSt { skip: s.skip + 1, ..s }, i + 1) } }
+            else if e.kind is End { if e.local == n_workbook() { WbStep::Bad } else { WbStep::Next(WbSt { skip: (s.skip - 1) as nat, ..s }, i + 1) } }
+            else { WbStep::Next(s, i + 1) }
+        } else if e.kind is Start {
+            match s.ctx {
+                WbCtx::Top =>
+                    if is_main(e) && e.local == n_sheets() { WbStep::Next(WbSt { ctx: WbCtx::Sheets, ..s }, i + 1) }
+                    else if is_main(e) && e.local == n_definednames() { WbStep::Next(WbSt { ctx: WbCtx::Names, ..s }, i + 1) }
+                    else if is_main(e) && e.local == n_workbookpr() {
+                        if s.pr is Some { WbStep::Bad } else {
+                            match date1904_of(e) { Some(b) => WbStep::Next(WbSt { pr: Some(b), skip: 1, ..s }, i + 1), None => WbStep::Bad }
+                        }
+                    }
+                    else if stray_start(e) { WbStep::Bad }
+                    else { WbStep::Next(WbSt { skip: 1, ..s }, i + 1) },
+                WbCtx::Sheets =>
+                    if is_main(e) && e.local == n_sheet() {
+                        match sheet_entry(e, rels) { Some(x) => WbStep::Next(WbSt { sheets: s.sheets.push(x), skip: 1, ..s }, i + 1), None => WbStep::Bad }
+                    }
+                    else if stray_start(e) { WbStep::Bad }
+                    else { WbStep::Next(WbSt { skip: 1, ..s }, i + 1) },
+                WbCtx::Names =>
+                    if is_main(e) && e.local == n_definedname() {
+                        let k = dn_name_idx(e.attrs, 0);
+                        if k >= e.attrs.len() { WbStep::Bad }      // `name` is required
+                        else {
+                            match unesc(e.attrs[k].raw) {
+                                None => WbStep::Bad,
+                                Some(nm) => {
+                                    let d = dn_scan(ev, i + 1, e.name, Seq::empty());
+                                    if d.ok && i < d.end < ev.len() { WbStep::Next(WbSt { names: s.names.push((nm, d.text)), ..s }, d.end + 1) } else { WbStep::Bad }
+                                },
+                            }
+                        }
+                    }
+                    else if stray_start(e) { WbStep::Bad }
+                    else { WbStep::Next(WbSt { skip: 1, ..s }, i + 1) },
+            }
+        } else if e.kind is End {
+            match s.ctx {
+                WbCtx::Top => if e.local == n_workbook() { WbStep::Done } else { WbStep::Bad },
+                WbCtx::Sheets => if e.local == n_sheets() { WbStep::Next(WbSt { ctx: WbCtx::Top, ..s }, i + 1) } else { WbStep::Bad },
+                WbCtx::Names => if e.local == n_definednames() { WbStep::Next(WbSt { ctx: WbCtx::Top, ..s }, i + 1) } else { WbStep::Bad },
+            }
+        } else {
+            WbStep::Next(s, i + 1)    // white space, comments between the child elements
+        }
+    }
+}
+pub enum WbStep { Next(WbSt, int), Done, Bad }
+pub open spec fn wb_scan(ev: Seq<Ev>, i: int, s: WbSt, rels: Map<Vec<u8>, String>) -> WbRes
+    decreases ev.len() - i
+{
+    if i < 0 || i >= ev.len() { wb_bad(i) }
+    else {
+        match wb_step(ev, i, s, rels) {
+            WbStep::Next(s2, i2) => if i < i2 { wb_scan(ev, i2, s2, rels) } else { wb_bad(i) },
+            WbStep::Done => WbRes { ok: true, sheets: s.sheets, names: s.names, pr: s.pr, end: i },
+            WbStep::Bad => wb_bad(i),
+        }
+    }
+}
+pub open spec fn wb_part(ev: Seq<Ev>, rels: Map<Vec<u8>, String>) -> WbRes { wb_scan(ev, 0, wb_init(), rels) }
+pub open spec fn wb_path() -> Seq<char> { "xl/workbook.xml"@ }
+
+// ---- legal variations of the encoding the code is sensitive to (hypotheses of the clauses that hold; the clauses without them are
+// ---- the ones the property demands)
+/// the main namespace is the default namespace throughout, and only it: a tag is unprefixed iff it belongs to the main namespace
+pub open spec fn main_ns_is_default(ev: Seq<Ev>) -> bool {
+    forall|k: int| 0 <= k < ev.len() && (#[trigger] ev[k]).is_tag() ==> (is_main(ev[k]) <==> ev[k].prefix is None)
+}
+/// relationship-id attributes are written `r:id` (or `relationships:id`), and nothing else is
+pub open spec fn rel_prefix_conventional(ev: Seq<Ev>) -> bool {
+    forall|k: int, j: int| 0 <= k < ev.len() && 0 <= j < (#[trigger] ev[k]).attrs.len() ==> (rid_attr(#[trigger] ev[k].attrs[j]) <==> rid_key(ev[k].attrs[j]))
+}
+pub open spec fn no_cdata(ev: Seq<Ev>) -> bool { forall|k: int| 0 <= k < ev.len() ==> !((#[trigger] ev[k]).kind is CData) }
+
+
+// ---- how the loaded state mirrors the declared workbook
+pub open spec fn ext_sheets(old: Seq<(String, String)>, cur: Seq<(String, String)>, w: Seq<WbSheet>) -> bool {
+    &&& cur.len() == old.len() + w.len()
+    &&& forall|i: int| 0 <= i < old.len() ==> #[trigger] cur[i] == old[i]
+    &&& forall|i: int| 0 <= i < w.len() ==> (#[trigger] cur[old.len() + i]).0@ == w[i].name && cur[old.len() + i].1@ == w[i].path
+}
+pub open spec fn ext_meta(old: Seq<Sheet>, cur: Seq<Sheet>, w: Seq<WbSheet>) -> bool {
+    &&& cur.len() == old.len() + w.len()
+    &&& forall|i: int| 0 <= i < old.len() ==> #[trigger] cur[i] == old[i]
+    &&& forall|i: int| 0 <= i < w.len() ==> (#[trigger] cur[old.len() + i]).name@ == w[i].name && cur[old.len() + i].typ == w[i].typ && cur[old.len() + i].visible == w[i].vis
+}
+pub open spec fn names_are(v: Seq<(String, String)>, w: Seq<(Seq<char>, Seq<char>)>) -> bool {
+    &&& v.len() == w.len()
+    &&& forall|i: int| 0 <= i < w.len() ==> (#[trigger] v[i]).0@ == w[i].0 && v[i].1@ == w[i].1
+}
+/// sheet paths and sheet metadata list the same sheets
+pub open spec fn aligned(sh: Seq<(String, String)>, ms: Seq<Sheet>) -> bool {
+    &&& sh.len() == ms.len()
+    &&& forall|i: int| 0 <= i < sh.len() ==> (#[trigger] sh[i]).0@ == ms[i].name@
+}
+pub open spec fn pr_or(pr: Option<bool>, d: bool) -> bool { match pr { Some(b) => b, None => d } }
+proof fn lemma_date1904_bytes()
+    ensures bytes_of("date1904"@) == k_date1904(),
+{
+    reveal_strlit("date1904");
+    assert(bytes_of("date1904"@) =~= k_date1904());
+}
+
+//@@ impl src/xlsx/mod.rs Xlsx
+#[verifier::loop_isolation(false)]
+#[verifier::allow_complex_invariants]
+//@@ fn src/xlsx/mod.rs Xlsx::read_workbook props=C16,C01 entry ret=r
+//@@ sig
+    ensures
+        //# C07.read_workbook_frame
+        final(self).strings == old(self).strings && final(self).formats == old(self).formats && final(self).tables == old(self).tables
+            && final(self).merged_regions == old(self).merged_regions && final(self).options == old(self).options
+            && content(final(self).zip) == content(old(self).zip),
+        //# C16.sheets_and_metadata_aligned
+        aligned(old(self).sheets@, old(self).metadata.sheets@) ==> aligned(final(self).sheets@, final(self).metadata.sheets@),
+        //# C16.absent_workbook_part
+        !has_part(content(old(self).zip), wb_path()) ==> r is Ok && final(self).sheets == old(self).sheets && final(self).metadata == old(self).metadata
+            && final(self).is_1904 == old(self).is_1904,
+        //# C16.sheets_in_document_order
+        ({ let evs = part_events(content(old(self).zip), wb_path()); let wb = wb_part(evs->Some_0, relationships@);
+           has_part(content(old(self).zip), wb_path()) && evs is Some && wb.ok
+             && main_ns_is_default(evs->Some_0) && rel_prefix_conventional(evs->Some_0) && no_cdata(evs->Some_0) ==>
+               r is Ok && ext_sheets(old(self).sheets@, final(self).sheets@, wb.sheets) && ext_meta(old(self).metadata.sheets@, final(self).metadata.sheets@, wb.sheets) }),
+        //# C16.defined_names_in_order
+        ({ let evs = part_events(content(old(self).zip), wb_path()); let wb = wb_part(evs->Some_0, relationships@);
+           has_part(content(old(self).zip), wb_path()) && evs is Some && wb.ok
+             && main_ns_is_default(evs->Some_0) && rel_prefix_conventional(evs->Some_0) && no_cdata(evs->Some_0) ==>
+               r is Ok && names_are(final(self).metadata.names@, wb.names) }),
+        //# C16.date1904_default_ns
+        ({ let evs = part_events(content(old(self).zip), wb_path()); let wb = wb_part(evs->Some_0, relationships@);
+           has_part(content(old(self).zip), wb_path()) && evs is Some && wb.ok
+             && main_ns_is_default(evs->Some_0) && rel_prefix_conventional(evs->Some_0) && no_cdata(evs->Some_0) ==>
+               r is Ok && final(self).is_1904 == pr_or(wb.pr, old(self).is_1904) }),
+        //# C16.date1904_from_workbookPr
+        ({ let evs = part_events(content(old(self).zip), wb_path()); let wb = wb_part(evs->Some_0, relationships@);
+           has_part(content(old(self).zip), wb_path()) && evs is Some && wb.ok
+             && rel_prefix_conventional(evs->Some_0) && no_cdata(evs->Some_0) ==>
+               r is Ok && final(self).is_1904 == pr_or(wb.pr, old(self).is_1904) }),
+        //# C01,C16.relationship_ns_prefix
+        ({ let evs = part_events(content(old(self).zip), wb_path()); let wb = wb_part(evs->Some_0, relationships@);
+           has_part(content(old(self).zip), wb_path()) && evs is Some && wb.ok
+             && main_ns_is_default(evs->Some_0) && no_cdata(evs->Some_0) ==>
+               r is Ok && ext_sheets(old(self).sheets@, final(self).sheets@, wb.sheets) && ext_meta(old(self).metadata.sheets@, final(self).metadata.sheets@, wb.sheets) }),
+        //# C16.defined_name_cdata
+        ({ let evs = part_events(content(old(self).zip), wb_path()); let wb = wb_part(evs->Some_0, relationships@);
+           has_part(content(old(self).zip), wb_path()) && evs is Some && wb.ok
+             && main_ns_is_default(evs->Some_0) && rel_prefix_conventional(evs->Some_0) ==>
+               r is Ok && names_are(final(self).metadata.names@, wb.names) }),
+//@@ replace /a\.map_err\((XlsxError::XmlAttr)\)\?/ Verus: "using a datatype constructor as a function value" unsupported; eta-expanded, same function
+a.map_err(|e| \g<1>(e))?
+//@@ replace /Attribute \{\s*key: QName\((b"[^"]*")\),\s*\.\.\s*\}\s*=>/#0of2 Verus crashes on byte-string literal patterns: the slice is bound and compared in a guard (same test, same arm order); the literal is kept verbatim
+Attribute { key: QName(__k), .. } if __k == \g<1> =>
+//@@ replace /Attribute \{\s*key: QName\((b"[^"]*")\),\s*\.\.\s*\}\s*=>/#1of2 Verus crashes on byte-string literal patterns: the slice is bound and compared in a guard (same test, same arm order); the literal is kept verbatim
+Attribute { key: QName(__k), .. } if __k == \g<1> =>
+//@@ replace /Attribute \{\s*key: QName\((b"[^"]*")\),\s*value: v,\s*\}\s*\|\s*Attribute \{\s*key: QName\((b"[^"]*")\),\s*value: v,\s*\}\s*=>/ Verus crashes on byte-string literal patterns: the or-pattern becomes one binding arm with the disjunction of the two comparisons as guard; literals kept verbatim
+Attribute { key: QName(__k), value: v } if __k == \g<1> || __k == \g<2> =>
+//@@ replace /format!\(("[^"]*"), r\)/ format! is outside Verus: assumed helper with the same arguments (format string kept verbatim)
+verif_format_1(\g<1>, r)
+//@@ replace /path\.split\(('[^']*')\)\.nth\((\d+)\)/ `Split::nth` is a provided Iterator method without a specification hook: assumed helper with the same arguments
+verif_str_split_nth(&path, \g<1>, \g<2>)
+//@@ replace /\.map_err\((XlsxError::Xml)\)\?/ Verus: "using a datatype constructor as a function value" unsupported; eta-expanded, same function
+.map_err(|e| \g<1>(e))?
+//@@ body
+        broadcast use {axiom_string_to_string, axiom_cow_to_string, axiom_pat_chars_str, axiom_str_index_full, axiom_str_index_from,
+                       axiom_string_index_req_full, axiom_str_index_req_from, axiom_peq_str, axiom_str_ext};
+//@@ before /let mut defined_names = /
+        let ghost ev = xml.events();
+        let ghost rels = relationships@;
+        let ghost tot = wb_part(ev, rels);
+        let ghost good = tot.ok && main_ns_is_default(ev) && rel_prefix_conventional(ev) && no_cdata(ev);
+        let ghost mut st = wb_init();
+        let ghost sh0 = self.sheets@;
+        let ghost ms0 = self.metadata.sheets@;
+        let ghost d0 = self.is_1904;
+        let ghost aligned0 = aligned(sh0, ms0);
+        proof { axiom_bytelits(); lemma_names_distinct(); lemma_date1904_bytes(); }
+//@@ loop 0
+            invariant_except_break
+                good ==> wb_scan(ev, xml.pos() as int, st, rels) == tot,
+            invariant
+                xml.events() == ev,
+                self.strings == old(self).strings && self.formats == old(self).formats && self.tables == old(self).tables
+                    && self.merged_regions == old(self).merged_regions && self.options == old(self).options
+                    && self.metadata.names == old(self).metadata.names,
+                aligned0 ==> aligned(self.sheets@, self.metadata.sheets@),
+                good ==> ext_sheets(sh0, self.sheets@, st.sheets) && ext_meta(ms0, self.metadata.sheets@, st.sheets)
+                    && names_are(defined_names@, st.names) && self.is_1904 == pr_or(st.pr, d0),
+            ensures
+                good ==> st.sheets == tot.sheets && st.names == tot.names && st.pr == tot.pr,
+            decreases xml.left(),
+//@@ before /match xml\.read_event_into\(&mut buf\)/
+            let ghost pos = xml.pos() as int;
+            let ghost st0 = st;
+            let ghost stp = if pos < ev.len() { wb_step(ev, pos, st, rels) } else { WbStep::Bad };
+            proof {
+                if good {
+                    assert(pos < ev.len());
+                    assert(!(stp is Bad));
+                    if stp is Next { st = stp->Next_0; }
+                }
+                if pos < ev.len() && ev[pos].is_tag() && ev[pos].wf() { lemma_wbpr_name(ev[pos]); }
+            }
+//@@ before /let mut name = String::new\(\);/
+                    let ghost at = ev[pos].attrs;
+                    proof {
+                        assert(e.ev() == ev[pos]);
+                        if good {
+                            assert(st0.root && st0.skip == 0 && st0.ctx is Sheets && is_main(ev[pos]));
+                            assert(sheet_entry(ev[pos], rels) is Some);
+                        }
+                    }
+//@@ loop 1 it
+                        invariant
+                            attrs_match(it.seq(), at),
+                            good ==> sh_fold(at, it.index@ as int, rels) == Some(ShAcc { name: name@, vis: visible, path: path@ }),
+//@@ before /let a = a\.map_err/
+                        let ghost k = it.index@ as int;
+                        proof {
+                            if good { lemma_sh_fold_prefix(at, k + 1, at.len() as int, rels); }
+                        }
+//@@ before /let r = &relationships/
+                                proof { axiom_bytes_keyed_map(rels, cow_ref(&v)); }
+//@@ before /let typ = match/
+                    proof {
+                        reveal_strlit("worksheets"); reveal_strlit("chartsheets"); reveal_strlit("dialogsheets");
+                    }
+//@@ after /self\.sheets\.push\(\(name, path\)\);/
+                    proof {
+                        if good {
+                            let x = sheet_entry(ev[pos], rels)->Some_0;
+                            assert(st == WbSt { sheets: st0.sheets.push(x), skip: 1, ..st0 });
+                        }
+                    }
+//@@ before /if let Some\(a\) = e/
+                    proof { assume(false); }
+//@@ loop 2
+                            invariant xml.events() == ev,
+                            decreases xml.left(),
 //@@ end
 //@@ endimpl
 
